@@ -207,6 +207,25 @@ def check_loop(ctx, rep):
                     ok6 = True
     rep.check('C15.L', 'MCMC.run::uniform-draw-below-probability', ok6, W, {'decision_variable': A, 'probability_variable': AP},
               f"`{A}` is not the comparison `{AP} > <fresh uniform draw>`")
+    # … and that comparison is the ONLY way a move is accepted: `accepted = True` without a draw is the same decision only where the full log ratio (density change PLUS
+    # Hastings term) is known to be ≥ 0; under a test of the density change alone it accepts moves whose acceptance probability is below one
+    forced = []
+    for st in ast.walk(main):
+        if isinstance(st, ast.Assign) and any(isinstance(t, ast.Name) and t.id == A for t in st.targets) and isinstance(st.value, ast.Constant) and st.value.value is True:
+            justified = False
+            p_, child_ = getattr(st, '_parent', None), st
+            while p_ is not None and p_ is not main:
+                if isinstance(p_, ast.If) and any(child_ is b for b in p_.body):
+                    t = p_.test
+                    if isinstance(t, ast.Compare) and len(t.ops) == 1 and isinstance(t.ops[0], (ast.GtE, ast.Gt)) and isinstance(t.left, ast.Name) and t.left.id == LA \
+                            and isinstance(t.comparators[0], ast.Constant) and t.comparators[0].value in (0, 0.0):
+                        justified = True
+                child_, p_ = p_, getattr(p_, '_parent', None)
+            if not justified:
+                forced.append(st)
+    rep.check('C15.L', 'MCMC.run::no-acceptance-without-the-draw', not forced, where(m, forced[0]) if forced else W, {'forced_acceptances': [st.lineno for st in forced]},
+              f"`{A} = True` (line {forced[0].lineno if forced else 0}) accepts a move without comparing exp(min(0, {LA})) with a uniform draw and not under `{LA} >= 0`: a move that "
+              f"raises the density but has a negative Hastings term (scaler, Dirichlet, block update, HMC) is accepted with probability one instead of exp({LA})")
     # L7 non-finite proposals are rejected: in every branch whose test is isinf/isnan of H or P, `accepted` is False
     n_nonfinite = 0
     for n in ast.walk(main):
